@@ -157,10 +157,30 @@ class Check:
 
     @staticmethod
     def _parse_coverage(text):
-        """Top-level action coverage lines: `<Name line .. of module M>: distinct:generated`."""
+        """Top-level action coverage lines: `<Name line .. of module M>: distinct:generated`.
+        Sub-actions of a disjunctive Next are reported by TLC as `<Next line .. (l1 c1 l2 c2)>`;
+        the operator names appearing at that source location are credited too."""
         cov = {}
-        for m in re.finditer(r"(?m)^<(\w+) line \d+, col \d+ to line \d+, col \d+ of module (\w+)(?: \([\d ]+\))?>: (\d+):(\d+)", text):
-            cov[m.group(1)] = cov.get(m.group(1), 0) + int(m.group(4))
+        srcs = {}
+        for m in re.finditer(r"(?m)^<(\w+) line \d+, col \d+ to line \d+, col \d+ of module (\w+)(?: \((\d+) (\d+) (\d+) (\d+)\))?>: (\d+):(\d+)", text):
+            name, module, l1, c1, l2, c2, _dist, gen = m.groups()
+            gen = int(gen)
+            cov[name] = cov.get(name, 0) + gen
+            if l1:
+                if module not in srcs:
+                    try:
+                        srcs[module] = open(os.path.join(SPEC, module + ".tla")).read().splitlines()
+                    except OSError:
+                        srcs[module] = []
+                lines = srcs[module][int(l1) - 1:int(l2)]
+                if lines:
+                    if len(lines) == 1:
+                        seg = lines[0][int(c1) - 1:int(c2)]
+                    else:
+                        seg = lines[0][int(c1) - 1:] + " " + " ".join(lines[1:-1]) + " " + lines[-1][:int(c2)]
+                    for w in set(re.findall(r"\b[A-Z]\w*\b", seg)):
+                        if w != name:
+                            cov[w] = cov.get(w, 0) + gen
         return cov
 
     def tlc_mc(self, module, cfg, tag=None, workers=None, timeout=3600, required_actions=None,
